@@ -172,6 +172,9 @@ struct Runtime {
 inline Runtime& rt() { static Runtime r; return r; }
 
 inline int self() { return rt().cur ? rt().cur->id : 0; }
+// true if p lies in the executable's .data / .bss (namespace-scope and function-local statics)
+extern "C" { extern char __data_start; extern char _end; }
+inline bool in_static_storage(const void* p) { const char* c = static_cast<const char*>(p); return c >= &__data_start && c < &_end; }
 inline Fiber& me() { return *rt().cur; }
 inline long now_step() { return rt().res.steps; }
 
